@@ -1148,6 +1148,116 @@ theorem C35_mutual_exclusion (t : List Monitor.Method) (ht : GoodTable t) (cap :
 theorem C35_get_needs_lock (t : List Monitor.Method) (ht : GoodTable t) :
     Monitor.modeIn t "Get" = .lock := Monitor.modeIn_lock ht.raceFree ht.get
 
+/-! ### the sliding-window limiter (dot/network/ratelimiters/sliding_window.go) -/
+
+/-- number of `AddRequest(id)` in a sequence -/
+def adds (ops : List LOp) (id : Nat) : Nat := (ops.filter (fun o => decide (o = LOp.add id))).length
+
+theorem lcount_mapSet (l : Limiter) (id v id' : Nat) :
+    lcount (mapSet l id v) id' = if id' = id then v else lcount l id' := by
+  unfold lcount mapSet
+  by_cases h : id' = id
+  · subst h; rw [lookup_cons_eq]; simp
+  · rw [lookup_cons_ne _ _ h, lookup_mapDelete]; simp [h]
+
+theorem lrun_count (max : Nat) (ops : List LOp) : ∀ (l : Limiter) (id : Nat),
+    lcount (lrun max l ops).2 id = lcount l id + adds ops id := by
+  induction ops with
+  | nil => intro l id; simp [lrun, adds]
+  | cons op ops ih =>
+    intro l id
+    simp only [lrun]
+    rw [ih]
+    cases op with
+    | add i =>
+      simp only [lstep, lcount_mapSet, adds, List.filter_cons]
+      by_cases h : id = i
+      · subst h; simp; omega
+      · have : ¬ (LOp.add i = LOp.add id) := fun e => h (by injection e with e; exact e.symm)
+        simp [h, this]
+    | exc i =>
+      simp only [lstep, lcount_mapSet, adds, List.filter_cons]
+      by_cases h : id = i
+      · subst h; simp
+      · simp [h]
+
+/-- sequential limiter: every AddRequest is counted, and the verdict is `count > max` -/
+theorem C35_limiter_seq (max : Nat) (ops : List LOp) (id : Nat) :
+    lcount (lrun max [] ops).2 id = adds ops id ∧
+    ((lstep max (lrun max [] ops).2 (.exc id)).1 = 1 ↔ adds ops id > max) := by
+  have h := lrun_count max ops [] id
+  have h0 : lcount [] id = 0 := rfl
+  rw [h0, Nat.zero_add] at h
+  refine ⟨h, ?_⟩
+  simp only [lstep, h]
+  by_cases hm : adds ops id > max <;> simp [hm]
+
+def LOp.method : LOp → String
+  | .add _ => "AddRequest"
+  | .exc _ => "IsLimitExceeded"
+
+def invOfL (t : List Monitor.Method) (max : Nat) (op : LOp) : Monitor.Inv Limiter Nat :=
+  { mode := Monitor.modeIn t op.method,
+    body := [fun l _ => ((lstep max l op).2, (lstep max l op).1)], init := 0 }
+
+/-- what the lock-table check establishes for the limiter: race free, and both methods are
+    read-modify-write sequences on `limits` (writers) — so each holds the limiter mutex across
+    its whole Get … Put sequence -/
+structure GoodLimiterTable (t : List Monitor.Method) : Prop where
+  raceFree : Monitor.raceFree t = true
+  add : Monitor.accessIn t "AddRequest" = .writes
+  exc : Monitor.accessIn t "IsLimitExceeded" = .writes
+
+theorem goodLimiterTable_today :
+    GoodLimiterTable [⟨"AddRequest", .lock, .writes⟩, ⟨"IsLimitExceeded", .lock, .writes⟩] := by
+  refine ⟨?_, ?_, ?_⟩ <;> decide
+
+/-- the table after removing the limiter mutex is rejected -/
+theorem C35_limiter_unlocked_rejected :
+    Monitor.raceFree [⟨"AddRequest", .none, .writes⟩, ⟨"IsLimitExceeded", .none, .writes⟩] = false := by
+  decide
+
+theorem seqRun_invOfL (t : List Monitor.Method) (max : Nat) (calls : Nat → LOp) (order : List Nat) :
+    ∀ l : Limiter, (Monitor.seqRun (fun i => invOfL t max (calls i)) l order).1 =
+      (lrun max l (order.map calls)).2 := by
+  induction order with
+  | nil => intro l; rfl
+  | cons i is ih =>
+    intro l
+    simp only [Monitor.seqRun, List.map_cons, lrun]
+    have hb : Monitor.runBody (invOfL t max (calls i)).body l (invOfL t max (calls i)).init =
+        ((lstep max l (calls i)).2, (lstep max l (calls i)).1) := rfl
+    rw [hb, ih]
+
+/-- **C35_limiter_counts_all.**  Under any accepted lock table, whatever the interleaving of
+    concurrent AddRequest / IsLimitExceeded invocations (`calls i`), once they have all
+    completed the limiter has recorded, for every id, exactly as many requests as AddRequest(id)
+    invocations completed — none is lost — and IsLimitExceeded(id) answers `that number > max`. -/
+theorem C35_limiter_counts_all (t : List Monitor.Method) (ht : GoodLimiterTable t) (max : Nat)
+    (calls : Nat → LOp) (es : List Monitor.Ev) (c : Monitor.Cfg Limiter Nat)
+    (hs : Monitor.Steps (fun i => invOfL t max (calls i)) (Monitor.Cfg.init []) es c)
+    (hq : ∀ j, c.fl j = none) (id : Nat) :
+    let done := (c.log.reverse.map (·.1)).map calls
+    lcount c.shared id = adds done id ∧
+    ((lstep max c.shared (.exc id)).1 = 1 ↔ adds done id > max) := by
+  intro done
+  have hmode : ∀ op, (invOfL t max op).mode = .lock := by
+    intro op
+    cases op with
+    | add i => exact Monitor.modeIn_lock ht.raceFree ht.add
+    | exc i => exact Monitor.modeIn_lock ht.raceFree ht.exc
+  have hp : Monitor.ReadersPure (fun i => invOfL t max (calls i)) := by
+    intro i hr
+    rw [hmode] at hr
+    cases hr
+  have h := Monitor.linearizable _ hp [] es c hs hq
+  have h1 : c.shared = (lrun max [] done).2 := by
+    have := congrArg Prod.fst h
+    rw [seqRun_invOfL] at this
+    exact this.symm
+  rw [h1]
+  exact C35_limiter_seq max done id
+
 /-- non-vacuity of the hypotheses of C35_linearizable: a Put can run alone to completion -/
 example : ∃ c, Monitor.Steps (fun i => invOf table ((fun _ => Op.put 1 5) i)) (Monitor.Cfg.init (new 2))
     [.acq 0, .step 0, .rel 0] c ∧ (∀ j, c.fl j = none) := by
